@@ -32,7 +32,11 @@ type cronProcKey struct {
 	procIdx     int // version the worker has processed (-1 none)
 	notifiedIdx int // version delivered to the cron informer handler / loaded at Init
 	cacheIdx    int // version in the process's cache
-	lb          time.Time
+	lb          time.Time // no request at or before lb
+	cf          time.Time // completeness / exact-next are demanded for due times after cf
+	inPassAt    time.Time // a change was delivered while a pass was running (it may be processed by that pass)
+	fuzzy       bool      // the instant the last change was processed lies somewhere in [lb, cf]
+	flushPass   int       // pass number in which the last change was processed
 	lastFired   time.Time
 	unstable    bool // cache/notification ran ahead of processing at some point since the last processing
 }
@@ -274,6 +278,9 @@ func (m *cronMon) onDeliver(l *simListener, n notification) {
 	k := m.pk(st, key)
 	if idx > k.notifiedIdx {
 		k.notifiedIdx = idx
+		if st.inWork && k.inPassAt.IsZero() {
+			k.inPassAt = m.w.Sim.Now()
+		}
 	}
 }
 
@@ -309,7 +316,7 @@ func (m *cronMon) onInit(p *Proc) {
 		if sch := jc.Spec.Schedule; sch != nil && sch.LastUpdated != nil && sch.LastUpdated.After(lb) {
 			lb = sch.LastUpdated.Time
 		}
-		k.lb = lb
+		k.lb, k.cf, k.fuzzy, k.inPassAt = lb, lb, false, time.Time{}
 		k.lastFired = time.Time{}
 		m.w.Sim.Tracef("  ORACLE init %s %s: version=%d lb=%s", p.name, key, idx, lb.UTC().Format(time.RFC3339Nano))
 	}
@@ -330,6 +337,7 @@ func (m *cronMon) onTickStart(p *Proc) {
 	}
 	st.inWork = true
 	st.works++
+	m.w.Sim.Tracef("  ORACLE pass %d of %s starts", st.works, p.name)
 	st.ws = m.w.Sim.Now()
 	st.reads = 0
 	st.counts = map[string]int{}
@@ -342,7 +350,14 @@ func (m *cronMon) onTickStart(p *Proc) {
 		k := st.keys[key]
 		if k.notifiedIdx > k.procIdx {
 			k.procIdx = k.notifiedIdx
-			k.lb = st.ws
+			k.flushPass = st.works
+			k.lb, k.cf, k.fuzzy = st.ws, st.ws, false
+			if !k.inPassAt.IsZero() {
+				// delivered during the previous pass: that pass may already have processed it, at any
+				// instant from the delivery on.
+				k.lb, k.fuzzy = k.inPassAt, true
+				k.inPassAt = time.Time{}
+			}
 			k.lastFired = time.Time{}
 			k.unstable = k.cacheIdx != k.procIdx
 			m.w.Sim.Stats["probe.cron_flush_processed"]++
@@ -426,7 +441,7 @@ func (m *cronMon) onEnqueue(p *Proc, jc *execution.JobConfig, t time.Time) {
 		return
 	}
 	// exact next element when the schedule is stable
-	if !k.unstable && k.procIdx == k.cacheIdx && k.procIdx >= 0 {
+	if !k.unstable && !k.fuzzy && k.procIdx == k.cacheIdx && k.procIdx >= 0 {
 		v := m.version(key, k.procIdx)
 		lb := effLB(k)
 		ok := v.fam.filter(func(c []*concrete) bool {
@@ -443,6 +458,9 @@ func (m *cronMon) onEnqueue(p *Proc, jc *execution.JobConfig, t time.Time) {
 		s.Stats["probe.cron_exact_checked"]++
 	}
 	k.lastFired = t
+	if k.fuzzy && t.After(k.cf) {
+		k.fuzzy = false
+	}
 }
 
 func fmtT(t time.Time) string {
@@ -459,15 +477,28 @@ func (m *cronMon) onWorkEnd(p *Proc) {
 		return
 	}
 	st.inWork = false
+	s.Tracef("  ORACLE pass %d of %s ends (started %s)", st.works, p.name, fmtT(st.ws))
+	endNow := s.Now()
 	for _, key := range sortedKeys(st.keys) {
 		k := st.keys[key]
 		if k.procIdx < 0 {
 			continue
 		}
+		if k.flushPass == st.works && endNow.After(st.ws) {
+			// time passed inside this pass: the change was processed (bumped from the live clock)
+			// somewhere between the pass's start and its end.
+			if endNow.After(k.cf) {
+				k.cf = endNow
+			}
+			k.fuzzy = true
+		}
 		if st.counts[key] >= st.k {
 			// cap reached: resume from the present.
 			if st.ws.After(k.lb) {
 				k.lb = st.ws
+			}
+			if st.ws.After(k.cf) {
+				k.cf = st.ws
 			}
 			s.Stats["probe.cron_cap_hit"]++
 			continue
@@ -481,6 +512,9 @@ func (m *cronMon) onWorkEnd(p *Proc) {
 			continue
 		}
 		lb := effLB(k)
+		if k.cf.After(lb) {
+			lb = k.cf
+		}
 		// every due time in (lb, ws] must have been requested by now.
 		ok := v.fam.filter(func(c []*concrete) bool {
 			return v.fam.nextIn(c, lb, st.ws).IsZero()
